@@ -179,7 +179,16 @@ class C01(Prop):
               ("max(10**5000, 1)", True), ("10**5000 > 1", False), ("", False), ("pi", False), ("[]", False),
               ("9" * 4300, False), ("9" * 4301, False), ("int('9' * 4301)", False),
               ("'ab' * 3000", False), ("'q' * 4097", False), ("[0] * 70000", False), ("'x' * 1048577", False),
-              ("2 ** 4097", False), ("2 ** 70000", True), ("'%x' % (2 ** 70000)", False), ("(1, 'a') * 40000", False)]
+              ("2 ** 4097", False), ("2 ** 70000", True), ("'%x' % (2 ** 70000)", False), ("(1, 'a') * 40000", False),
+              # the wrapper's own parsing of the prompt: number spellings, trailing dots, spaces
+              ("2 + 2.", False), ("1.", False), (".5 * 4", False), ("1_000 + 1", False), ("0x10 + 1", False),
+              ("1e3", False), ("7 // 2 ?", False), ("3 * (1 + 2) !", False), ("2 ** 3 ** 2", False), ("1 if 0 else 2.", False),
+              # forbidden constructs / unlisted names through the wrappers (the agent builds its OWN engine)
+              ("eval('1')", False), ("getattr(1, 'real')", False), ("(1).real", False), ("[x for x in (1, 2)]", False),
+              ("(lambda: 1)()", False), ("abs.__self__", False), ("globals()", False), ("exec('x=1')", False),
+              ("__import__('os').getpid()", False), ("ans + 1", False), ("_ * 2", False), ("x1 + 1", False),
+              ("math.sqrt(4)", False), ("max(1, 2).real", False), ("(1, 2)[0]", False), ("f'{1}'", False),
+              ("1 if (1).real else 2", False), ("vars()", False), ("compile('1', '', 'eval')", False), ("dir(1)", False)]
 
     def _registry_case(self, rng, depth):
         """registration histories: use a tool, re-register another body under the same name / remove it / clear the
@@ -624,6 +633,21 @@ class C01(Prop):
                 if str(x.get("agent", "")).startswith("raised"):
                     out.append(Violation("never_raises", "BioAgent.express('calculate …') returns an ActionProtein",
                                          x["agent"], i))
+                if t[0] == "cdg":
+                    # the legacy entry point and the agent's own engine are the same evaluator behind a wrapper: nothing
+                    # is executed, and a text with a forbidden construct / an unlisted name is never answered with a value
+                    src = mito.unhexs(t[2])
+                    for key, who in (("prof", "digest_glucose"), ("agent_prof", "BioAgent.express")):
+                        out += self._profile_clauses(x.get(key), i, who)
+                    at = x.get("agent_text")
+                    agent_ok = at is not None and not "".join(map(chr, at[:20])).startswith("Metabolic Failure") \
+                        and src == src.strip() and "\n" not in src
+                    for ok, who in ((x.get("text_ok"), "digest_glucose"), (agent_ok, "BioAgent 'calculate'")):
+                        if ok:
+                            why = self._unconfined(src, self.allow_names)
+                            if why:
+                                out.append(Violation(why[0], f"{who} answers with the failure text ({why[1]})",
+                                                     "a value: " + "".join(map(chr, (x.get("text") if who[0] == "d" else at)[:40])), i))
             elif t[0] == "bound":
                 if o != "returned":
                     out.append(Violation("returns_within_bound", "metabolize(timeout_seconds=0.5) returns within 6 s "
@@ -733,6 +757,42 @@ class C01(Prop):
         if out and "history" in case.get("note", ""):
             self._fresh = True
         return out
+
+    def _profile_clauses(self, prof, i, who=""):
+        out = []
+        if not prof:
+            return out
+        for ev in prof["audit"]:
+            out.append(Violation("no_code_execution", "no audit event (import/exec/compile/open/os/…) while "
+                                 "evaluating" + (f" ({who})" if who else ""), ev, i))
+        for c in prof["c"]:
+            w, what = c.split(">", 1)
+            if w in WALKER_FUNCS and what not in APPROVED_OPERATORS | APPROVED_PURE | WALKER_PLUMBING:
+                out.append(Violation("only_allow_listed_callables", "operator.*/math.*/value builtins", c, i))
+        for c in prof["py"]:
+            w, what = c.split(">", 1)
+            if w in WALKER_FUNCS and not (what.startswith(str(REPO)) and "mitochondria.py" in what) \
+                    and "/harness/vf/mito.py:" not in what:
+                out.append(Violation("only_allow_listed_callables", "no python-level call out of the walker", c, i))
+        return out
+
+    def _unconfined(self, src, defined):
+        """(clause, reason) when evaluating `src` on the math pathway necessarily touches something outside the
+        allow-list: a must-visit node of a refused class, a computed callee, a name that is not listed"""
+        try:
+            body = ast.parse(src, mode="eval").body
+        except Exception:  # noqa
+            return ("value_only_from_parsed_expression", "the text does not parse")
+        for n in must_visit(body):
+            cn = type(n).__name__
+            nm = n.id if cn == "Name" else (n.func.id if cn == "Call" and isinstance(n.func, ast.Name) else None)
+            if nm is not None and nm not in defined:
+                return ("no_lookup_outside_allow_list", f"{nm!r} is not an allow-listed name")
+            if cn not in ALLOWED_NODE_CLASSES:
+                return ("no_forbidden_construct", f"{cn} is evaluated")
+            if cn == "Call" and not isinstance(n.func, ast.Name):
+                return ("no_forbidden_construct", "computed callee")
+        return None
 
     def trigger(self, case):
         if any(l.startswith("bound ") and mito.has_pow(l) for l in case["lines"]):
